@@ -643,6 +643,102 @@ theorem tamper_rejected_body (cfg : Signer.Cfg) (cr : Crypto) (clock : Clock) (n
   exact hH this
 
 
+/-! ## 5b. Tamper theorems in collision-extraction form (audit P1.3)
+
+No hypothesis about the hash: for **every** `Crypto` — the judge's executable SHA-256 / HMAC-SHA256 included — two accepted
+requests agree on everything the signature covers, **or** an explicit collision (`ShaCollision`: two different byte strings
+with the same `sha256hex`; `HmacCollision`: two different (key, message) pairs with the same `hmac`) exists. The
+`Function.Injective` versions above are the special case "no collision exists". -/
+
+theorem tamper_rejected_or_collision (cfg : Signer.Cfg) (cr : Crypto) (clock : Clock) (now : Int) (r1 r2 : Req) (b1 b2 : Option Bytes)
+    (ctx : Ctx)
+    (i1 : initFromSignedRequest cfg.lit clock r1 = .ok ctx) (i2 : initFromSignedRequest cfg.lit clock r2 = .ok ctx)
+    (v1 : verify cfg cr clock now r1 b1 = .ok ()) (v2 : verify cfg cr clock now r2 b2 = .ok ())
+    (n1 : noLFb r1 = true) (n2 : noLFb r2 = true) (hsh : (10 : UInt8) ∉ ctx.signedHeaders) :
+    (covered cfg clock ctx r1 = covered cfg clock ctx r2 ∧ hashBodyVerify cfg cr b1 = hashBodyVerify cfg cr b2)
+    ∨ ShaCollision cr ∨ HmacCollision cr := by
+  obtain ⟨c1, s1, h1, _, _, k1, e1⟩ := verify_ok_facts cfg cr clock now r1 b1 v1
+  obtain ⟨c2, s2, h2, _, _, k2, e2⟩ := verify_ok_facts cfg cr clock now r2 b2 v2
+  rw [i1] at h1; cases h1
+  rw [i2] at h2; cases h2
+  rw [k1] at k2; cases k2
+  rcases expectedSignature_eq_or_collision cfg cr clock ctx s1 r1 r2 b1 b2 (e1.symm.trans e2) with h | h
+  · exact Or.inl (canonical_injective cfg clock ctx r1 r2 _ _ ((noLFb_iff r1).mp n1) ((noLFb_iff r2).mp n2) hsh h)
+  · exact Or.inr h
+
+/-- … the body: the two accepted requests carry the same body bytes (unless `excludeBody`), or a collision exists -/
+theorem tamper_rejected_body_or_collision (cfg : Signer.Cfg) (cr : Crypto) (clock : Clock) (now : Int) (r1 r2 : Req) (b1 b2 : Bytes)
+    (ctx : Ctx)
+    (i1 : initFromSignedRequest cfg.lit clock r1 = .ok ctx) (i2 : initFromSignedRequest cfg.lit clock r2 = .ok ctx)
+    (v1 : verify cfg cr clock now r1 (some b1) = .ok ()) (v2 : verify cfg cr clock now r2 (some b2) = .ok ())
+    (n1 : noLFb r1 = true) (n2 : noLFb r2 = true) (hsh : (10 : UInt8) ∉ ctx.signedHeaders) (hex : cfg.excludeBody = false) :
+    b1 = b2 ∨ ShaCollision cr ∨ HmacCollision cr := by
+  rcases tamper_rejected_or_collision cfg cr clock now r1 r2 _ _ ctx i1 i2 v1 v2 n1 n2 hsh with ⟨_, h⟩ | h
+  · simp only [hashBodyVerify, hex, Bool.false_eq_true, if_false] at h
+    rcases sha_eq_or_collision cr _ _ h with e | hc
+    · exact Or.inl e
+    · exact Or.inr (Or.inl hc)
+  · exact Or.inr h
+
+/-- … header mode: the LF-freeness of the signed-header list follows from the checked parser contract -/
+theorem tamper_rejected_header_mode_or_collision (cfg : Signer.Cfg) (cr : Crypto) (clock : Clock) (now : Int) (r1 r2 : Req)
+    (b1 b2 : Option Bytes) (ctx : Ctx)
+    (i1 : initFromSignedRequest cfg.lit clock r1 = .ok ctx) (i2 : initFromSignedRequest cfg.lit clock r2 = .ok ctx)
+    (hmode : hget r1.headers authHeader ≠ [])
+    (v1 : verify cfg cr clock now r1 b1 = .ok ()) (v2 : verify cfg cr clock now r2 b2 = .ok ())
+    (n1 : noLFb r1 = true) (n2 : noLFb r2 = true) :
+    (covered cfg clock ctx r1 = covered cfg clock ctx r2 ∧ hashBodyVerify cfg cr b1 = hashBodyVerify cfg cr b2)
+    ∨ ShaCollision cr ∨ HmacCollision cr := by
+  have hsh : (10 : UInt8) ∉ ctx.signedHeaders := by
+    have hq := accepted_query_fully_parsed cfg cr clock now r1 b1 v1
+    unfold initFromSignedRequest initFromSignedRequestLax at i1
+    simp only [hq, Bool.false_eq_true, if_false] at i1
+    rw [if_pos hmode] at i1
+    exact signedHeaders_no_lf_header_mode i1 ((noLFb_iff r1).mp n1)
+  exact tamper_rejected_or_collision cfg cr clock now r1 r2 b1 b2 ctx i1 i2 v1 v2 n1 n2 hsh
+
+/-- **`tamper_rejected_cross_ctx`**: the two accepted requests may carry **different** signing contexts (another
+`SignedHeaders=` list, another scope, another date — i.e. the Authorization / date header or the signature query parameters
+were edited too). If they present the **same signature value**, then — or a collision exists — they have the same
+signed-header list, the same time string, the same scope string, and agree on everything covered (method, canonical URI,
+canonical query, every signed header line, body hash). So editing the signed-header list, the scope or the date of an accepted
+request while keeping its signature is rejected as well. `hclk` / `hs*`: LF-free time and scope strings (`time.Format` layout;
+scopes from a `NoLF` header value). -/
+theorem tamper_rejected_cross_ctx (cfg : Signer.Cfg) (cr : Crypto) (clock : Clock) (now : Int) (r1 r2 : Req) (b1 b2 : Option Bytes)
+    (ctx1 ctx2 : Ctx)
+    (i1 : initFromSignedRequest cfg.lit clock r1 = .ok ctx1) (i2 : initFromSignedRequest cfg.lit clock r2 = .ok ctx2)
+    (v1 : verify cfg cr clock now r1 b1 = .ok ()) (v2 : verify cfg cr clock now r2 b2 = .ok ())
+    (hsig : ctx1.signature = ctx2.signature)
+    (n1 : noLFb r1 = true) (n2 : noLFb r2 = true)
+    (hsh1 : (10 : UInt8) ∉ ctx1.signedHeaders) (hsh2 : (10 : UInt8) ∉ ctx2.signedHeaders)
+    (hclk : ∀ t, (10 : UInt8) ∉ clock.fmtTime t)
+    (hs1 : (10 : UInt8) ∉ scopeString cfg.lit clock ctx1.time ctx1.scopes)
+    (hs2 : (10 : UInt8) ∉ scopeString cfg.lit clock ctx2.time ctx2.scopes) :
+    (ctx1.signedHeaders = ctx2.signedHeaders ∧ clock.fmtTime ctx1.time = clock.fmtTime ctx2.time ∧
+     scopeString cfg.lit clock ctx1.time ctx1.scopes = scopeString cfg.lit clock ctx2.time ctx2.scopes ∧
+     covered cfg clock ctx1 r1 = covered cfg clock ctx2 r2 ∧ hashBodyVerify cfg cr b1 = hashBodyVerify cfg cr b2)
+    ∨ ShaCollision cr ∨ HmacCollision cr := by
+  obtain ⟨c1, s1, h1, _, _, _, e1⟩ := verify_ok_facts cfg cr clock now r1 b1 v1
+  obtain ⟨c2, s2, h2, _, _, _, e2⟩ := verify_ok_facts cfg cr clock now r2 b2 v2
+  rw [i1] at h1; cases h1
+  rw [i2] at h2; cases h2
+  have hE : expectedSignature cfg cr clock ctx1 s1 r1 b1 = expectedSignature cfg cr clock ctx2 s2 r2 b2 := by
+    rw [← e1, ← e2, hsig]
+  rcases expectedSignature_cross_or_collision cfg cr clock ctx1 ctx2 s1 s2 r1 r2 b1 b2 hclk hs1 hs2 hE with ⟨et, es, _, hc⟩ | h
+  · have q1 : (10 : UInt8) ∉ (covered cfg clock ctx1 r1).2.2.1 := by simp only [covered, canonQuery]; exact encode_no_lf _
+    have q2 : (10 : UInt8) ∉ (covered cfg clock ctx2 r2).2.2.1 := by simp only [covered, canonQuery]; exact encode_no_lf _
+    obtain ⟨m, u, q, sh, ls, bh⟩ := canonical_injective_cross r1 r2 _ _ _ _ _ _ ((noLFb_iff r1).mp n1) ((noLFb_iff r2).mp n2)
+      q1 q2 hsh1 hsh2 hc
+    refine Or.inl ⟨sh, et, es, ?_, bh⟩
+    simp only [covered] at q ⊢
+    rw [m, u, q, ← sh, ls]
+  · exact Or.inr h
+
+-- non-vacuity with a NON-injective toy hash (`exCrypto` maps `[]` and `sha256Empty` to the same value, so `ShaCollision exCrypto`
+-- holds and the injective versions say nothing about it): the hypotheses are met by the signed example request; for the real
+-- SHA-256 / HMAC the judge evaluates `verify … = .ok ()` on every accepted harness case
+-- (examples: end of section 6, `ShaCollision exCrypto` and the instantiation at the non-injective `exCrypto`)
+
 /-! ## 6. Non-vacuity and the two defects of the unrepaired code, on concrete data -/
 section Concrete
 
@@ -723,6 +819,20 @@ example : covered exSigCfg exClock exCtx2 exSigned2
     (by decide) (by decide)
     (by decide) (by decide)
     ⟨by decide, by decide, by decide, by decide⟩ ⟨by decide, by decide, by decide, by decide⟩ (by decide)
+
+-- collision-extraction form at a NON-injective hash: `exCrypto` has a collision, the hypotheses of `tamper_rejected_or_collision` are
+-- nevertheless met by the signed example request and the same request with an extra unsigned header
+example : ShaCollision exCrypto := ⟨[], sha256Empty, by decide, by decide⟩
+def exCtx1 : Ctx := match initFromSignedRequest defaultLiteral exClock (exSigned (some [1, 2])) with
+  | .ok c => c | .error _ => ⟨false, [], [], [], [], 0, 0⟩
+set_option maxRecDepth 100000 in
+example : (covered exSigCfg exClock exCtx1 (exSigned (some [1, 2]))
+      = covered exSigCfg exClock exCtx1 { exSigned (some [1, 2]) with headers := (exSigned (some [1, 2])).headers ++ [(b "X-New", [b "v"])] } ∧
+      hashBodyVerify exSigCfg exCrypto (some [1, 2]) = hashBodyVerify exSigCfg exCrypto (some [1, 2]))
+    ∨ ShaCollision exCrypto ∨ HmacCollision exCrypto :=
+  tamper_rejected_or_collision exSigCfg exCrypto exClock 5 (exSigned (some [1, 2]))
+    { exSigned (some [1, 2]) with headers := (exSigned (some [1, 2])).headers ++ [(b "X-New", [b "v"])] }
+    (some [1, 2]) (some [1, 2]) exCtx1 (by decide) (by decide) (by decide) (by decide) (by decide) (by decide) (by decide)
 
 end Concrete
 
